@@ -18,6 +18,12 @@ func paHex() string {
 	return hx.Hex(types.KeyAddress(pub))
 }
 
+// saHex is the address of signing key n (n=2: a foreign signer, not the genesis proposer).
+func saHex(n byte) string {
+	_, pub := bm.DetKey(n)
+	return hx.Hex(types.KeyAddress(pub))
+}
+
 // one symbol of the response alphabet
 type sym struct {
 	resp string // err | absent | batch
@@ -144,6 +150,40 @@ func GenC01(r *hx.Rng, tier string, w io.Writer) {
 		}
 	}
 	rec(nil, depth)
+	// a signer that is not the genesis proposer (NewManager accepts any signer): the node must never commit a block.
+	// (a) from an empty disk: the genesis block it saved carries its own key under the proposer's address and fails
+	// validation for ever; (b) on an existing chain after the operator swapped the key (restart/crash with sk=2):
+	// a fresh block is refused by execCreateBlock ("proposer address is not the same"), a block left waiting by the
+	// old key is re-signed with the new key and fails signature validation. No liveness probes: by design.
+	foreign := []sym{{"batch", 1, 1, "ok"}, {"batch", 0, 1, "ok"}, {"batch", 2, 1, "fail"}, {"err", 0, 0, "ok"}, {"absent", 0, 0, "ok"}, {"batch", 1, -5, "ok"}}
+	for _, ih := range []uint64{1, 3} {
+		s.cur = baseTime
+		fmt.Fprintf(w, "reset ih=%d gt=%d maxp=0 pa=%s sk=2 sa=%s\n", ih, baseTime, paHex(), saHex(2))
+		for _, y := range foreign {
+			s.step(y, false)
+		}
+		fmt.Fprintln(w, "crash keep=0")
+		s.step(foreign[0], false)
+		fmt.Fprintln(w, "restart")
+		s.step(foreign[0], false)
+		for _, pend := range []bool{false, true} {
+			for _, verb := range []string{"crash keep=9", "restart"} {
+				s.reset(ih, 0)
+				s.step(sym{"batch", 1, 1, "ok"}, false)
+				s.step(sym{"batch", 2, 1, "ok"}, false)
+				if pend {
+					s.step(sym{"batch", 1, 1, "fail"}, false) // leaves a block of the old key waiting at height+1
+				}
+				fmt.Fprintf(w, "%s sk=2 sa=%s\n", verb, saHex(2))
+				for _, y := range foreign {
+					s.step(y, false)
+				}
+				// the operator puts the right key back: production resumes
+				fmt.Fprintf(w, "restart sk=1 sa=%s\n", paHex())
+				s.probes()
+			}
+		}
+	}
 	n := 80
 	if tier == "thorough" {
 		n = 1500
@@ -241,6 +281,27 @@ func GenC04(r *hx.Rng, tier string, w io.Writer) {
 				fmt.Fprintln(w, "restart")
 				s.step(sym{"batch", 1, 1, "ok"}, false)
 			}
+		}
+	}
+	// a crash (not during a save) restarts on the cache files of the LAST clean stop - an older generation than the
+	// store image - or on the mixed old/new set a cut save left, at every crash point of the step
+	for keep := 0; keep <= 5; keep++ {
+		for _, mixed := range []string{"", CacheFiles[1], CacheFiles[6]} {
+			s.reset(1, 0)
+			s.step(sym{"batch", 1, 1, "ok"}, false)
+			s.step(sym{"batch", 2, 1, "ok"}, false)
+			fmt.Fprintln(w, "restart")
+			s.step(sym{"batch", 1, 1, "ok"}, false)
+			if mixed != "" {
+				fmt.Fprintf(w, "restart cut=%s frac=50\n", mixed)
+				s.step(sym{"batch", 0, 1, "ok"}, false)
+			}
+			s.step(sym{"batch", 2, 1, "ok"}, false)
+			fmt.Fprintf(w, "crash keep=%d\n", keep)
+			s.probes()
+			fmt.Fprintln(w, "crash keep=1")
+			fmt.Fprintln(w, "restart")
+			s.step(sym{"batch", 1, 1, "ok"}, false)
 		}
 	}
 	// two crashed saves in a row
